@@ -113,7 +113,14 @@ Definition C02_event_ok (c : ccfg) (k : cache) (parent : json) (evs : list ev) (
           else if controlled_by (e_pre e) puid then None else Some "write-target-not-controlled"
       | _ =>
           if controlled_by (e_pre e) puid then None else
-          if is_adoption_edit puid (e_pre e) (e_post e) then None else
+          if is_adoption_edit puid (e_pre e) (e_post e) then
+            (* an orphan that does not match the parent's selector is never written, adoption included
+               (judged on the labels the controller observed: its cache, as C04 does) *)
+            let seen := match find_cached c k q with Some o => o | None => e_pre e end in
+            match make_selector c parent with
+            | Some sel => if sel_matches sel (get_labels seen) then None else Some "non-matching-orphan-written"
+            | None => Some "non-matching-orphan-written"
+            end else
           if was_ours c k puid q evs then Some "write-target-not-controlled"
           else Some "write-target-never-controlled"
       end
